@@ -319,7 +319,7 @@ func (h *Sources) Write(infer bool) {
 		// Don't write the line if it's identical to the last one.
 		last, err := history.GetLine(history.Len() - 1)
 		if err == nil && last != "" && strings.TrimSpace(last) == strings.TrimSpace(line) {
-			return
+			continue
 		}
 
 		// Save the line and notify through hints if an error raised.
